@@ -480,7 +480,7 @@ pub fn rotation_worker(tier: &str) {
 
 fn rotation(run: &mut Run) {
     let exe = std::env::current_exe().unwrap();
-    let sizes = ["500", "750", "1250"];
+    let sizes = ["250", "500", "750", "1250"];
     let handles: Vec<_> = sizes
         .iter()
         .map(|s| {
